@@ -98,6 +98,12 @@ CHECKS = {
          "For every sequence of up to 2 (3 thorough) versions built from 85 edit operators at every applicable position of 3 base models (valid: add namespace/entity/field(s), defaults, nullability, deprecation, indexes, full text; invalid: remove/reorder/retype/rename, missing default, reserved names; mixed valid+invalid), with rows of every entity written under every version: an accepted version keeps every pre-existing value readable under the same name, storage identifiers stable, pairwise distinct and identical over 24 applications on freshly deserialised models and 2 fresh worker processes; a refused version leaves the in-memory model, _configuration, indexes, rows and query answers unchanged; re-applying the current text and restarting on the same folder change nothing. Depth-1 and a stratified depth-2 subset also run on the real service through update_data_model and restart.",
          "Hash-map iteration orders are sampled by repetition (24 + 2x12 applications), not enumerated. Rows live outside rooms; no synchronisation between peers on different versions.",
          "DESIGN.md section 5 C15"),
+
+ "C13": ("fault_enumeration",
+         "exhaustive fault enumeration: every (fault point, hit index, mode) of deterministic workloads run by a child process on the real service, plus real statement failures (commit-hook veto, progress-handler interrupt), state after reopening compared with fault-free prefixes",
+         "Six deterministic workloads (nested multi-row mutation, deletion, room mutation, ingested batch, 1/2/5 requests sharing one transaction through the writer gate, recompute) run in a child process on a real GraphDatabaseService; a dry run counts the hits of each fault point of the batch writer, then for every point, every hit index and both modes (process abort; injected statement error where the writer uses the result) - plus a veto of every COMMIT and an SQLITE_INTERRUPT at every k-th progress callback - the child runs again, logging each acknowledgement or failure before continuing; a second process reopens the folder with a normal start. Clauses: the reopened state (id-free canonical form) equals the state after a prefix of whole requests containing every acknowledged one; a request reported failed has no effect; after an injected error the next request succeeds; after restart no mark is pending and the daily log equals a harness recomputation and a real from-scratch pass.",
+         "Process death on tmpfs, not power loss: SQLite WAL recovery is trusted. Single faults only. history_hash is excluded from the repair comparison (C09 decides it). Interrupt cases are judged but counted apart because the callback count varies with HashMap order.",
+         "DESIGN.md section 5 C13"),
 }
 
 NOT_YET = {
